@@ -339,6 +339,13 @@ func groupSamRecords(sam io.Reader, cHeader chan biogosam.Header, chnl chan samR
 	s, err := biogosam.NewReader(sam)
 	if err != nil {
 		cerr <- err
+		return
+	}
+
+	// the alignments are to a reference that has to be described in the header
+	if len(s.Header().Refs()) == 0 {
+		cerr <- errors.New("no reference sequence (@SQ) line in the SAM header: is the input empty or missing its header?")
+		return
 	}
 
 	cHeader <- *s.Header()
